@@ -177,7 +177,6 @@ static std::string dump(State& s) {
       for (size_t i = 0; i < v.size(); ++i) os << (i ? "," : "") << (unsigned)v[i];
       os << "/" << (m.is_zero_column(j) ? 1 : 0) << "/";
       for (unsigned r = 0; r < s.NR; ++r) {
-        if (SWAPS && !row_known(s, r)) { os << "-"; continue; }
         os << (m.is_zero_entry(j, r) ? 1 : 0);
       }
     } catch (const std::out_of_range&) { os << "A"; }
@@ -257,7 +256,7 @@ int main() {
       } else if (w == "ZE") {
         unsigned c, r; is >> c >> r;
         if constexpr (!Opt::has_column_compression) {
-          if (!col_in_range(s, c) || (SWAPS && !row_known(s, r))) status = "SKIP"; else m.zero_entry(c, r);
+          if (!col_in_range(s, c)) status = "SKIP"; else m.zero_entry(c, r);
         } else status = "SKIP";
       } else if (w == "ZC") {
         unsigned c; is >> c;
@@ -267,7 +266,7 @@ int main() {
       } else if (w == "SR") {
         unsigned a, b; is >> a >> b;
         if constexpr (Opt::has_column_and_row_swaps && !Opt::has_column_compression) {
-          if (!row_known(s, a) || !row_known(s, b)) status = "SKIP"; else m.swap_rows(a, b);
+          m.swap_rows(a, b);
         } else status = "SKIP";
       } else if (w == "SC") {
         unsigned a, b; is >> a >> b;
